@@ -489,4 +489,66 @@ def runCold : List NmOp → List Node
   | .call w r d :: rest => createFromCap w r d :: runCold rest
   | .gc _ :: rest => runCold rest
 
+/-! ### the authority order  write > read > verify  (> opaque) -/
+
+/-- what a holder of the cap object can do: `write` (holds a write key), `read` (holds a read /
+decryption key, or the literal data), `verify` (storage index and integrity fields only),
+`opaque` (an `UnknownURI`: nothing this client can use). -/
+inductive Authority | opaque | verify | read | write
+  deriving DecidableEq, Repr
+
+def Authority.rank : Authority → Nat
+  | .opaque => 0 | .verify => 1 | .read => 2 | .write => 3
+
+instance : LE Authority := ⟨fun a b => a.rank ≤ b.rank⟩
+instance (a b : Authority) : Decidable (a ≤ b) := inferInstanceAs (Decidable (a.rank ≤ b.rank))
+
+/-- by the fields the object holds -/
+def FileCap.authority : FileCap → Authority
+  | .ssk .. | .mdmf .. => .write
+  | .sskRo .. | .mdmfRo .. | .chk .. | .lit .. => .read
+  | .chkV .. | .sskV .. | .mdmfV .. => .verify
+
+def Cap.authority : Cap → Authority
+  | .file f | .dir _ f => f.authority
+  | .unknown .. => .opaque
+
+/-- authority of the node `create_from_cap` returns, for whoever is handed that node: a known node
+has the authority of its cap; an UnknownNode that kept a rw_uri may carry write authority this client
+cannot judge (`write`), one with only a ro_uri is `opaque`. -/
+def Node.authority : Node → Authority
+  | .known _ cap => cap.authority
+  | .unknown n => if n.rw.isSome then .write else .opaque
+
+/-! ### what a directory stores in the cleartext ro slot, and what a reader makes of it -/
+
+/-- outcome of `dirnode.set_uri`'s `_create_and_validate_node` + `_pack_normalized_children` for one child,
+as far as the ro slot is concerned -/
+inductive PackRo
+  | refused (e : Err)        -- `node.raise_error()` raised: the child is not linked
+  | notPackable              -- verify-cap node (CiphertextFileNode): not an IFilesystemNode, pack asserts
+  | stored (ro : Bytes)      -- `strip_prefix_for_ro(child.get_readonly_uri() or b"", deep_immutable)`
+  deriving DecidableEq, Repr
+
+/-- `node.get_readonly_uri()`: known nodes print `cap.get_readonly()`, an UnknownNode returns its ro_uri.
+`none` = None, or a mis-kinded cap whose to_string asserts (unreachable for nodes built from strings). -/
+def Node.readonlyUri (H : Hashes) : Node → Option Bytes
+  | .known _ cap => (cap.getReadonly H).bind Cap.toString
+  | .unknown n => n.ro
+
+def packRo (H : Hashes) (writecap readcap : Option Bytes) (deep : Bool) : PackRo :=
+  match createFromCap writecap readcap deep with
+  | .unknown n =>
+    match n.error with
+    | some e => .refused e
+    | none => .stored (stripPrefixForRo (n.ro.getD []) deep)
+  | .known k cap =>
+    if k == .immutableVerifier then .notPackable
+    else .stored (stripPrefixForRo ((Node.readonlyUri H (.known k cap)).getD []) deep)
+
+/-- the node a holder of only the directory's read cap (or of an immutable directory) gets for the
+stored ro slot: `_unpack_contents` calls `create_from_cap(None, ro_uri.rstrip(b" ") or None, deep_immutable)`.
+(The `rstrip` only matters for caps ending in spaces, which no known kind accepts.) -/
+def readerNode (stored : Bytes) (deep : Bool) : Node := createFromCap none (some stored) deep
+
 end Tahoe.Uri
